@@ -788,6 +788,7 @@ class X12ContextReader(object):
         #Get Map of Control Segments
         self.map_file = 'x12.control.00501.xml' if self.src.icvn == '00501' else 'x12.control.00401.xml'
         self.control_map = map_if.load_map_file(self.map_file, param, self.map_path)
+        self.control_map_file = self.map_file
         self.map_index_if = map_index.map_index(self.map_path)
         self.x12_map_node = self.control_map.getnodebypath('/ISA_LOOP/ISA')
         self.walker = walk_tree()
@@ -811,6 +812,11 @@ class X12ContextReader(object):
             errh = error_handler.errh_list()
 
             if seg.get_seg_id() == 'ISA':
+                # each interchange is read by the control map of its own version
+                map_file_isa = 'x12.control.00501.xml' if seg.get_value('ISA12') == '00501' else 'x12.control.00401.xml'
+                if map_file_isa != self.control_map_file:
+                    self.control_map_file = map_file_isa
+                    self.control_map = map_if.load_map_file(map_file_isa, self.param, self.map_path)
                 tpath = '/ISA_LOOP/ISA'
                 self.x12_map_node = self.control_map.getnodebypath(tpath)
             elif seg.get_seg_id() == 'GS':
